@@ -52,7 +52,7 @@ try:
                         res["also_detected_by"] = other
                         res["also_clauses"] = sorted({l.split("clause=")[-1] for l in v2})[:4]
                         break
-        round2 = d[3:] in ("c", "d", "e", "f")
+        round2 = d[3:] in ("c", "d", "e", "f", "g", "h")
         meta = {"id": d, "breaks_property": pid, "property_title": props[pid]["title"],
                 "patch": os.path.basename(patch), "needs_to_manifest": "see notes.md",
                 "confirmed": ("tools/confirm_seed2.sh: scratch worktree of the repaired tree" if round2 else
